@@ -11,6 +11,7 @@ decide to_str_radix or the integer formatting of the exponent."""
 import re
 from fractions import Fraction
 from rules import table as TB
+from facts import cres
 from rules.table import Undecided
 
 
@@ -391,6 +392,9 @@ def digits_root(t):
 def string_tape(rep, F, fn, digits_param, spec_exp, rule='NUMERAL-SHAPE', delta_calls=r'round_ascii_digits$'):
     """fn builds the numeral in a String and hands it to pad_integral.  `digits_param`: parameter holding the ASCII
     digits; `spec_exp(lin)`: linear form of the power of ten the digits are to be scaled by (before rounding)."""
+    # `digits_param` may also be a predicate on the term the buffer was built from (a layer merged into a caller that
+    # computes the digit string itself has no digit parameter)
+    is_digits = digits_param if callable(digits_param) else (lambda t: t == TB.T('param', digits_param))
     try:
         pe = TB.PathEnum(F, fn, max_paths=800, cut_loops=True)
         paths = pe.run()
@@ -425,7 +429,7 @@ def string_tape(rep, F, fn, digits_param, spec_exp, rule='NUMERAL-SHAPE', delta_
                 base = norm(args[0])
                 while _is(base, 'mutated'):
                     base = norm(base[1])
-                if base == TB.T('param', digits_param):
+                if is_digits(base):
                     problems.append('digits are removed from the digit vector (%s) before the rounding routine sees them: the discarded tail can no longer influence the rounding' % c.split('::')[-1])
             if re.search(delta_calls, c):
                 deltas.append(TB.T('call', callee, tuple(args)))
@@ -457,7 +461,7 @@ def string_tape(rep, F, fn, digits_param, spec_exp, rule='NUMERAL-SHAPE', delta_
         if unknown_edit:
             verdicts.setdefault('other', []).append(('undecided', 'the buffer is edited by %s, which the tape interpretation does not model' % unknown_edit.split('::')[-1]))
             continue
-        if digits_term != TB.T('param', digits_param):
+        if not is_digits(digits_term):
             verdicts.setdefault('other', []).append(('undecided', 'buffer handed to pad_integral is not built from the digit parameter: %s' % TB.show(digits_term)[:60]))
             continue
         # length of the digit string at the time the numeral is assembled (after rounding, if any)
@@ -660,7 +664,15 @@ def check(rep, F, rule='NUMERAL-SHAPE'):
         r_ = param_roles(fn)
         n += string_tape(rep, F, fn, r_.get('digits', 1), lin(TB.T('param', r_.get('exp', 3))), rule)
     fn = F.fns.get('impl_fmt::format_dotless_exponential')
-    if fn is None:
+    outer = F.fns.get('impl_fmt::dynamically_format_decimal')
+    if fn is None and outer is not None and 'this' in param_roles(outer) and any(TB._plain(cres(t) or '').endswith('Formatter::pad_integral') for b, t in outer.calls()):
+        # the dot-less layer merged into its only caller, which computes the digit string itself: the same obligations on
+        # the merged body's pad_integral paths - the buffer is to_str_radix(this.digits, 10), the exponent is -this.scale
+        r_ = param_roles(outer)
+        this_ = TB.T('param', r_['this'])
+        rep.add_functions([outer.name])
+        n += string_tape(rep, F, outer, lambda t: _digits_of(t) == norm(this_), add({}, lin(TB.T('field', this_, 'scale')), -1), rule)
+    elif fn is None:
         rep.violation(rule, 'format_dotless_exponential:missing', 'anchor function not found (fail closed)')
     else:
         rep.add_functions([fn.name])
@@ -672,4 +684,81 @@ def check(rep, F, rule='NUMERAL-SHAPE'):
         else:
             rep.undecided(rule, fn.key + ':point-and-exponent', 'parameters of the dot-less exponent form not recognised by type', fn.where())
     n += call_specs(rep, F, rule)
+    n += pad_nonzero(rep, F, rule)
+    return n
+
+
+def pad_nonzero(rep, F, rule='NUMERAL-SHAPE'):
+    """Plain notation of an integer-valued decimal (scale <= 0) appends -scale zeros through
+    zero_right_pad_integer_ascii_digits(digits, &mut exp, precision).  The only value that may be handed over with the
+    constant exponent 0 instead of -scale is zero itself (no digits to shift): on every path that passes the constant,
+    the comparisons made on the operand's sign must leave NoSign as the only possibility (or an is_zero test must have
+    succeeded, or the scale is known to be 0); on every other path the exponent must be -scale.  A guard that lets a
+    non-zero sign through to the constant prints  -72e4  as  -72."""
+    n = 0
+    SIGNS = {'Minus': 0, 'NoSign': 1, 'Plus': 2}
+    for fn in F.real_fns():
+        if fn.is_closure or not any(re.search(r'zero_right_pad_integer_ascii_digits$', (t['callee'].get('resolved') or '')) for b, t in fn.calls()):
+            continue
+        roles = param_roles(fn)
+        if 'this' not in roles:
+            continue
+        key = fn.key + ':zeros-for-every-nonzero-integer'
+        try:
+            pe = TB.PathEnum(F, fn, max_paths=400, cut_loops=True)
+            paths = pe.run()
+        except Undecided as e:
+            rep.undecided(rule, key, str(e), fn.where())
+            continue
+        n += 1
+        this = 'arg%d' % roles['this']
+        scale_l = lin(TB.T('field', TB.T('param', roles['this']), 'scale'))
+        bad = und = None
+        ok = 0
+        for (atoms, out), eff in zip(paths, pe.effects):
+            calls = [args for c, args in eff if TB._plain(c).endswith('zero_right_pad_integer_ascii_digits')]
+            if not calls or not consistent(atoms):
+                continue
+            possible = set(SIGNS.values())
+            zero = False
+            for a, c in atoms:
+                s0 = TB.show(TB.strip_refs(a))
+                truth = not (c == ('eq', 0))
+                m = re.match(r'^discr\((%s\.sign|sign\(%s\))\)$' % (this, this), s0)
+                if m:
+                    possible &= ({c[1]} if c[0] == 'eq' else (possible - set(c[1])))
+                    continue
+                m = re.match(r'^(Eq|Ne)\((?:%s\.sign|sign\(%s\)),(?:\w+::)*Sign::(\w+)\)$' % (this, this), s0) or re.match(r'^(Eq|Ne)\((?:\w+::)*Sign::(\w+),(?:%s\.sign|sign\(%s\))\)$' % (this, this), s0)
+                if m and m.group(2) in SIGNS:
+                    eq = truth if m.group(1) == 'Eq' else (not truth)
+                    possible &= ({SIGNS[m.group(2)]} if eq else (possible - {SIGNS[m.group(2)]}))
+                    continue
+                if re.match(r'^is_zero\(%s(\.digits|\.int_val)?\)$' % this, s0) and truth:
+                    zero = True
+                a0 = norm(a)
+                if _is(a0, 'bin') and a0[1] in ('Eq', 'Ne') and (a0[1] == 'Eq') == truth:
+                    d = add(lin(a0[2]), lin(a0[3]), -1)
+                    if d == scale_l or add(d, scale_l) == {}:
+                        zero = True                        # scale == 0: nothing to pad
+            for args in calls:
+                e = TB.strip_refs(args[1])
+                if e == TB.T('const', 0):
+                    if zero or possible <= {SIGNS['NoSign']}:
+                        ok += 1
+                    else:
+                        bad = 'the padding routine receives the constant exponent 0 on a path where the sign may still be %s: a non-zero integer-valued decimal loses its -scale trailing zeros' % '/'.join(k for k, v in sorted(SIGNS.items()) if v in possible and k != 'NoSign')
+                else:
+                    le = lin2(e)
+                    if add(le, scale_l) == {}:
+                        ok += 1
+                    elif any(isinstance(k, tuple) for k in le):
+                        und = 'exponent handed to the padding routine not recognised: %s' % TB.show(e)[:60]
+                    else:
+                        bad = 'the exponent handed to the padding routine is not -scale'
+        if bad:
+            rep.violation(rule, key, bad, fn.where())
+        elif und:
+            rep.undecided(rule, key, und, fn.where())
+        else:
+            rep.ok(rule, key, '%d padding call(s): exponent -scale, or the constant 0 for the value zero only' % ok, fn.where())
     return n
